@@ -18,7 +18,7 @@ META = dict(
                 'rounding) that every reported metric is the value of the right receiver rounded to two decimals, that the CSV row '
                 'states the same values and that the pass flag follows the margin-inclusive threshold',
     bounds=['3 channels, served / blocked (mode not feasible) / blocked at spectrum assignment (no free slot) / bidirectional outcomes, '
-            'penalties from concrete tables (different per direction)', 'aggregation of 3 requests of which one differs only in a symbolic transmit power'],
+            'penalties from concrete tables (different per direction); operator-fixed slots (N, M) = (0, 4) and (-8, 4)', 'aggregation of 3 requests of which one differs only in a symbolic transmit power'],
     assumptions=['floats as reals', 'CSV cell layer replaced by an in-memory recorder of the rows handed to csv.DictWriter',
                  'line environment stub as in C13'],
     stubs=['csv.DictWriter in gnpy.topology.request -> in-memory row recorder', 'LineStub (C13)'],
